@@ -137,9 +137,7 @@ def main():
         print(f"  violated obligation {name}: {v.get('label')} inputs={json.dumps(v.get('inputs'))[:400]} :: {v.get('detail')}")
         print(f"VIOLATION property={prop} replay={v.get('replay')}")
     code = EXIT_OK
-    if violations:
-        code = EXIT_VIOLATION
-    elif harness_errors or worker_fail or (missing and not killed):
+    if harness_errors or worker_fail or (missing and not killed):
         for r in harness_errors[:10]:
             msg = (r.get("errors") or r.get("vacuity_fail") or r.get("conform_fail") or ["?"])[0]
             print(f"  HARNESS-ERROR {r['name']}: {str(msg)[:1500]}")
@@ -148,6 +146,8 @@ def main():
         if missing:
             print(f"  HARNESS-ERROR obligations without result: {missing[:10]}")
         code = EXIT_HARNESS
+    if violations:
+        code = EXIT_VIOLATION
     if code != EXIT_HARNESS and not os.environ.get("VERIF_KEEP_WORK"):
         shutil.rmtree(work, ignore_errors=True)
     return code
